@@ -210,6 +210,19 @@ def gen_tok_ops(rng, comment, observe=False):
         else: ops.append("bf:" + gen_chunk(rng))
     return ",".join(ops)
 
+def math_doc(rng, depth=0):
+    """MathML with text integration points containing HTML, unhashable names, annotation-xml"""
+    out = b"<math>"
+    for _ in range(rng.randrange(1, 4)):
+        ip = rng.choice([b"mi", b"mo", b"mn", b"ms", b"mtext"])
+        inner = b""
+        for _ in range(rng.randrange(1, 4)):
+            inner += rng.choice([b"<b>z</b>", b"t", b"</my-el>", b"</annotation-xml>", b"<my-el>", b"<b class=x>", b"<style><b>1</b></style>", b"</x-y>", b"<span>", b"<p>w"])
+        out += b"<" + ip + b">" + inner + b"</" + ip + b">"
+        if rng.randrange(3) == 0:
+            out += b"<annotation-xml encoding=\"" + rng.choice([b"text/html", b"application/xhtml+xml", b"x"]) + b"\">" + rng.choice([b"<b>y</b>", b"x", b"<style><b>1</b></style>"]) + b"</annotation-xml>" + rng.choice([b"", b"<b>after</b>", b"<mtext><i>k</i></mtext>"])
+    return out + rng.choice([b"</math>", b"</math>", b""])
+
 def l2_doc(rng, depth=0, foreign=False):
     out = b""
     for _ in range(rng.randrange(1, 5)):
@@ -238,7 +251,11 @@ def l2_doc(rng, depth=0, foreign=False):
             out += b"<svg>" + l2_doc(rng, depth + 1, True) + rng.choice([b"</svg>", b"</svg>", b""])
         elif c < 17 and not foreign:
             out += rng.choice([b"<script>var x='<b>';</script>", b"<style>a>b{}</style>", b"<title>T&lt;</title>", b"<textarea><a></textarea>",
-                               b"<math><mi>x</mi><annotation-xml encoding='text/html'><b>y</b></annotation-xml></math>"])
+                               b"<math><mi>x</mi><annotation-xml encoding='text/html'><b>y</b></annotation-xml></math>",
+                               b"<script>document.write(\"<div>x</div>\"); var y = 1; more script text</script>",
+                               b"<script>a</b>c d e f g h i j k</script>", b"<style>x</p> y z { }</style>", b"<textarea>q</div> r s t</textarea>",
+                               b"<script><!-- </b> x y z --></script>"])
+            if rng.randrange(3) == 0: out += math_doc(rng)
         elif c < 18:
             out += b"</" + rng.choice(TAGS).encode() + b">"
         else:
@@ -358,6 +375,15 @@ def gen_utf8(rng, n):
         for j, ch in enumerate(all_chunkings(rng, data, 4)):
             yield "L2 u%d.%d nomodel=1 isz=104 strict=0 %s ops=%s" % (i, j, " ".join(toks), ",".join(["W" + c.hex() for c in ch] + ["E"]))
 
+def gen_nohandlers(rng, n):
+    """no handlers at all: the tag scanner alone; written byte by byte so that pending is observed at every prefix"""
+    for i in range(n):
+        data = rng.choice([lambda: l2_doc(rng), lambda: doc(rng, 10), lambda: wellformed(rng)])()
+        data = data[:120]
+        if rng.randrange(3) == 0: data = rng.choice([b"</ x>", b"</>", b"<?x?>", b"<!x>", b"</ y z>text after", b"<script><!-- </b-c script text goes on and on", b"<script><!--</x1 a b c d e f"]) + data
+        chunks = [data[j:j+1] for j in range(len(data))] or [b""]
+        yield "L2 nh%d isz=104 strict=%d ops=%s" % (i, 1 if rng.randrange(5) == 0 else 0, ",".join(["W" + c.hex() for c in chunks] + ["E"]))
+
 def main():
     fam, seed, n = sys.argv[1], int(sys.argv[2]), int(sys.argv[3])
     rng = random.Random(seed)
@@ -367,6 +393,8 @@ def main():
         for l in gen_l2(rng, n, fam[2:], fam[2] + fam[3]): print(l)
     elif fam.startswith("grp-"):
         for l in gen_groups(rng, max(1, n // 5), fam[4:], 5): print(l)
+    elif fam == "nohandlers":
+        for l in gen_nohandlers(rng, max(1, n // 3)): print(l)
     elif fam == "utf8":
         for l in gen_utf8(rng, max(1, n // 4)): print(l)
     elif fam == "pairs":
